@@ -435,6 +435,11 @@ pub struct World {
     /// process's history: it must not spoil later, well-formed calls.
     #[serde(default)]
     pub misuse_before: Option<u8>,
+    /// Some(k): the receiver validates and evaluates on a thread whose stack has k KiB (musl's
+    /// default for threads is 128 KiB; Rust's 2 MiB; the harness's own threads have far more).
+    /// Only honoured by the child-process receiver: running out of stack kills the process.
+    #[serde(default)]
+    pub stack_kib: Option<u32>,
 }
 
 /// The documented panics of both `eval` functions, provoked on a tiny valid circuit and caught.
@@ -517,14 +522,12 @@ pub fn child_main() -> i32 {
     let broken = w.stdio_broken;
     let say = |s: &str| {
         // the stage protocol itself must get through: stdio is only broken for the code under test
-        seams::break_stdio(None);
-        {
+        seams::harness_print(|| {
             let o = std::io::stdout();
             let mut o = o.lock();
             let _ = writeln!(o, "STAGE {s}");
             let _ = o.flush();
-        }
-        seams::break_stdio(broken);
+        });
     };
     seams::reset_world();
     seams::enter_party_env(w.env_flip.clone());
@@ -579,7 +582,7 @@ pub fn child_main() -> i32 {
         }
         say("done");
     };
-    match w.channel {
+    let receive_all = || match w.channel {
         Channel::JsonSsa => {
             if let Ok(c) = serde_json::from_slice::<Circuit>(&msg) {
                 run_ssa(&c)
@@ -596,6 +599,22 @@ pub fn child_main() -> i32 {
             Err(_) => {}
         },
         Channel::Bristol => {}
+    };
+    match w.stack_kib {
+        None => receive_all(),
+        Some(k) => {
+            let flips = w.env_flip.clone();
+            std::thread::scope(|sc| {
+                let h = std::thread::Builder::new().stack_size(k as usize * 1024).spawn_scoped(sc, || {
+                    seams::enter_party_env(flips);
+                    seams::break_stdio(broken);
+                    receive_all()
+                });
+                if let Ok(h) = h {
+                    let _ = h.join();
+                }
+            });
+        }
     }
     0
 }
@@ -638,8 +657,16 @@ fn huge_via_child(w: &World, kind: &str, obs: &mut Obs) {
     let accepted = stages.iter().any(|s| *s == "validate_ok");
     let finished = stages.last().map(|s| *s == "done" || *s == "validate_not_ok").unwrap_or(true);
     obs.executions += 1;
+    let honest = w.faults.is_empty() && w.raw_message.is_none() && w.channel != Channel::Bristol;
     if !accepted {
         bump(&mut obs.counters, "huge_not_accepted");
+        if honest && stages.last() == Some(&"validate_start") {
+            obs.findings.push(Finding {
+                class: "validate_rejects_honest".into(),
+                signature: format!("validate_rejects_honest:{kind}:process_died"),
+                what: format!("the receiving process died inside validate() of a circuit produced by the compiler/converter ({}; stack of the calling thread: {:?} KiB)", out.status, w.stack_kib),
+            });
+        }
         return;
     }
     bump(&mut obs.counters, "huge_accepted");
@@ -661,8 +688,9 @@ fn huge_via_child(w: &World, kind: &str, obs: &mut Obs) {
             class: "eval_panicked".into(),
             signature: format!("eval_aborted:{kind}"),
             what: format!(
-                "validate() accepted a {kind} circuit with huge declared sizes, then the process died inside eval() ({}; 1 GiB address space, 10 s CPU)",
-                out.status
+                "validate() accepted a {kind} circuit, then the receiving process died inside eval() on inputs of the declared shape ({}; 1 GiB address space, 10 s CPU, stack of the calling thread: {} KiB)",
+                out.status,
+                w.stack_kib.map(|k| k.to_string()).unwrap_or("harness default (>= 64 MiB)".into())
             ),
         });
     }
@@ -1778,7 +1806,7 @@ pub fn stream_len(family: &str) -> usize {
 
 fn draw_world(plan: &CasePlan, family: &str, idx: u64, keys: Keys, p: &mut Prng) -> World {
     let dedup = p.chance(3, 4);
-    let mut w = World { program: None, dedup, keys, channel: Channel::JsonSsa, faults: vec![], raw_message: None, prior: vec![], no_threads: false, threads_refused_after: None, env_flip: vec![], stdio_broken: None, misuse_before: None };
+    let mut w = World { program: None, dedup, keys, channel: Channel::JsonSsa, faults: vec![], raw_message: None, prior: vec![], no_threads: false, threads_refused_after: None, env_flip: vec![], stdio_broken: None, misuse_before: None, stack_kib: None };
     match family {
         "honest" => {
             // compiler / converter outputs must be accepted (fault-free channel)
@@ -1925,6 +1953,14 @@ pub fn replay_json(w: &World, f: &Finding, seed: u64, idx: Option<u64>) -> serde
 
 pub fn replay(v: &serde_json::Value) -> Result<Vec<Finding>, String> {
     let w: World = serde_json::from_value(v["world"].clone()).map_err(|e| format!("bad replay file: {e}"))?;
+    if w.stack_kib.is_some() || !w.env_flip.is_empty() {
+        // dimensions of the receiving PROCESS (its environment, the stack of the calling thread):
+        // such a world runs in a child process of its own, as it did when it was found
+        let kind = if matches!(w.channel, Channel::JsonReg | Channel::JsonTypeReg) { "reg" } else { "ssa" };
+        let mut o = Obs::default();
+        huge_via_child(&w, kind, &mut o);
+        return Ok(o.findings);
+    }
     Ok(run_world(&w).findings)
 }
 
@@ -1985,6 +2021,17 @@ pub fn run_case(plan: &CasePlan, seed: u64, idx: u64) -> CaseResult {
                 bump(&mut o.counters, "environment_flipped_receivers");
                 absorb(&o, &w2, &mut acc);
             }
+        }
+    }
+    // a receiver whose calling thread has a small stack (musl's default thread stack is 128 KiB):
+    // the honest message once more, in a child process, in SSA and register form
+    if family != "large" && w.program.is_some() && message_of(&World { faults: vec![], ..w.clone() }).map(|m| m.len() < 200_000).unwrap_or(false) {
+        for ch in [Channel::JsonSsa, Channel::JsonReg] {
+            let w2 = World { faults: vec![], prior: vec![], channel: ch, stack_kib: Some(128), misuse_before: None, ..w.clone() };
+            let mut o = Obs::default();
+            huge_via_child(&w2, if ch == Channel::JsonSsa { "ssa" } else { "reg" }, &mut o);
+            bump(&mut o.counters, "small_stack_receivers");
+            absorb(&o, &w2, &mut acc);
         }
     }
     acc.d.u64(p.draws);
